@@ -467,6 +467,40 @@ func (f *frame) execFor(s *ast.ForStmt) {
 			}
 		}
 	}
+	// the same idiom as a three-clause loop:
+	//   for k := mapiterkey(it); k != nil; k = mapiterkey(it) { …; mapiternext(it) }
+	if s.Init != nil && s.Cond != nil && s.Post != nil && len(s.Body.List) >= 1 {
+		init, ok1 := s.Init.(*ast.AssignStmt)
+		cond, ok2 := s.Cond.(*ast.BinaryExpr)
+		post, ok3 := s.Post.(*ast.AssignStmt)
+		last, ok4 := s.Body.List[len(s.Body.List)-1].(*ast.ExprStmt)
+		if ok1 && ok2 && ok3 && ok4 && init.Tok == token.DEFINE && post.Tok == token.ASSIGN && cond.Op == token.NEQ &&
+			len(init.Lhs) == 1 && len(init.Rhs) == 1 && len(post.Lhs) == 1 && len(post.Rhs) == 1 {
+			kid, okk := init.Lhs[0].(*ast.Ident)
+			pid, okp := post.Lhs[0].(*ast.Ident)
+			cid, okc := cond.X.(*ast.Ident)
+			nid, okn := cond.Y.(*ast.Ident)
+			icall, oki := init.Rhs[0].(*ast.CallExpr)
+			pcall, okq := post.Rhs[0].(*ast.CallExpr)
+			ncall, okm := last.X.(*ast.CallExpr)
+			if okk && okp && okc && okn && oki && okq && okm && nid.Name == "nil" {
+				kobj := f.info.Defs[kid]
+				if kobj != nil && f.info.Uses[pid] == kobj && f.info.Uses[cid] == kobj &&
+					calleeName(f.info, icall) == "mapiterkey" && calleeName(f.info, pcall) == "mapiterkey" && calleeName(f.info, ncall) == "mapiternext" {
+					space := []*T{mk("?", "nomap")}
+					if f.lastIter != nil {
+						space = []*T{f.lastIter}
+					}
+					b := s.Body.List
+					f.runLoopBody("mapiter", space, b[:len(b)-1], s, func() {
+						f.env[kobj] = tVar(fmt.Sprintf("$k%d", depth))
+					})
+					delete(f.env, kobj)
+					return
+				}
+			}
+		}
+	}
 	f.E.fail(f.fn, s, "for loop is neither a counted loop nor the runtime map-iterator idiom: cannot summarise")
 }
 
@@ -661,11 +695,73 @@ func (f *frame) execTypeSwitch(s *ast.TypeSwitchStmt) outcome {
 			f.E.fail(f.fn, s, "type switch clause does not extend "+obj.Name()+" by appending/adding: cannot summarise")
 			continue
 		}
+		var hoisted []*T
+		if !emission {
+			// summands every (non-panicking) clause adds are added whatever the
+			// type is: `return size + x` in each clause is `size + switch{x}`
+			var common map[string]int
+			var sample map[string]*T
+			for _, cs := range cases {
+				if cs.A[0].Op == "panic" {
+					continue
+				}
+				cnt := map[string]int{}
+				smp := map[string]*T{}
+				for _, x := range addParts(cs.A[0]) {
+					if v, isK := isConstT(x); isK && v == 0 {
+						continue
+					}
+					cnt[x.String()]++
+					smp[x.String()] = x
+				}
+				if common == nil {
+					common, sample = cnt, smp
+					continue
+				}
+				for k, n := range common {
+					if cnt[k] < n {
+						common[k] = cnt[k]
+					}
+				}
+			}
+			var keys []string
+			for k, n := range common {
+				if _, isK := isConstT(sample[k]); n > 0 && !isK {
+					keys = append(keys, k)
+				}
+			}
+			sort.Strings(keys)
+			if len(keys) > 0 && len(cases) > 1 {
+				for i, cs := range cases {
+					if cs.A[0].Op == "panic" {
+						continue
+					}
+					rem := map[string]int{}
+					for _, k := range keys {
+						rem[k] = common[k]
+					}
+					var rest []*T
+					for _, x := range addParts(cs.A[0]) {
+						if rem[x.String()] > 0 {
+							rem[x.String()]--
+						} else {
+							rest = append(rest, x)
+						}
+					}
+					cases[i] = mk("case", cs.K, tAdd(rest...))
+				}
+				for _, k := range keys {
+					for n := 0; n < common[k]; n++ {
+						hoisted = append(hoisted, sample[k])
+					}
+				}
+			}
+		}
 		ts := mk("tswitch", "", append([]*T{subj}, cases...)...)
 		if emission {
 			f.env[obj] = tSeq(old, ts)
 		} else {
-			f.env[obj] = tAdd(old, ts)
+			f.env[obj] = tAdd(append([]*T{old, ts}, hoisted...)...)
 		}
 	}
 	if returned > 0 {
